@@ -574,10 +574,22 @@ def r8(idx, rep):
         ("Length", "_produce_value", lambda C: [C("c0", value=None)], 0),
         ("Length", "_produce_value", lambda C: [C("c0", value=12345)], 5),
     ]
+    import math as _m
+    E2 = lambda a, b: [C("eq", items=[C("l", value=a, kind="Term"), C("r", value=b, kind="Term")], kind="Equality")]
+    E3 = lambda a, b, c: [C("eq", items=[C("x", value=a, kind="Term"), C("y", value=b, kind="Term"), C("z", value=c, kind="Term")], kind="Equality")]
+    str_tables += [
+        ("Add", "_produce_value", lambda C: E2("1", "2"), 3.0), ("Add", "_produce_value", lambda C: E3(1, 2, 3), 6.0), ("Add", "_produce_value", lambda C: E2(None, 5), 5.0),
+        ("Add", "_produce_value", lambda C: E2("2.5", 1), 3.5),
+        ("Subtract", "_produce_value", lambda C: E2(5, 2), 3.0), ("Subtract", "_produce_value", lambda C: E3(10, 3, 2), 5.0), ("Subtract", "_produce_value", lambda C: [C("t", value="5", kind="Term")], -5),
+        ("Multiply", "_produce_value", lambda C: E2(3, 4), 12.0), ("Multiply", "_produce_value", lambda C: E2(2, None), 0), ("Multiply", "_produce_value", lambda C: E3(2, 3, 4), 24.0),
+        ("Divide", "_produce_value", lambda C: E2(10, 4), 2.5), ("Divide", "_produce_value", lambda C: E3(100, 5, 2), 10.0),
+        ("Mod", "_produce_value", lambda C: E2(7, 3), 1.0), ("Mod", "_produce_value", lambda C: E2(7.5, 2), 1.5),
+        ("Concat", "_produce_value", lambda C: E3("a", "b", 1), "ab1"), ("Concat", "_produce_value", lambda C: E2("x ", " y"), "x  y"),
+    ]
     groups = {}
     for cls, meth, mk, want in str_tables:
         try:
-            fi, ps = FM.run_function(idx, cls, meth, mk(C))
+            fi, ps = FM.run_function(idx, cls, meth, mk(C), inline={f"{cls}._do_sub"})
         except AnalysisError as e:
             rep.note(f"C01.R8 {cls}.{meth}: table not evaluated ({e})")
             continue
